@@ -115,7 +115,7 @@ func (fsEngine) Gen(r *Rand, tier string) any {
 			add(p, "link", t)
 			links = append(links, p)
 		}
-		c.RootSpec = PickStr(r, []string{"@/root", "@/root", "@/root/", "@/rootlink", "root", "@/root/a/..", "./root"})
+		c.RootSpec = PickStr(r, []string{"@/root", "@/root", "@/root/", "@/root/", "@/rootlink", "@/rootlink/", "root", "root/", "@/root/a/..", "./root", "@/root//", "@/./root"})
 		if r.Chance(1, 2) && len(links) > 0 {
 			adv := &FsAdv{}
 			switch r.Pick([]int{6, 2, 1}) {
@@ -373,7 +373,12 @@ func (fsEngine) Run(ci any, st *Stats) *Violation {
 	}
 	defer func() { _ = os.Chdir(cwd) }()
 
-	lib := &lisp.RelativeFileSystemLibrary{RootDir: d.abs(c.RootSpec)}
+	// the root exactly as spelled (trailing separators, "..", "./" are not cleaned away)
+	rootDir := c.RootSpec
+	if strings.HasPrefix(rootDir, "@/") {
+		rootDir = d.base + "/" + strings.TrimPrefix(rootDir, "@/")
+	}
+	lib := &lisp.RelativeFileSystemLibrary{RootDir: rootDir}
 	if _, _, ok := d.spec.resolve(strings.Split(strings.TrimPrefix(c.RootSpec, "@/"), "/")); !ok {
 		return nil
 	}
